@@ -3,7 +3,7 @@
     (same answer for the same operation; malformed envelopes refused, nothing executed).
     Executable only (extracted / vm_compute). *)
 From Coq Require Import List NArith ZArith Bool String.
-From ApiFu Require Import Base.Sexp Transport.EnvelopeModel Transport.EnvelopeSpec.
+From ApiFu Require Import Base.Sexp Transport.EnvelopeModel Transport.JsonText Transport.EnvelopeSpec.
 Import ListNotations.
 Open Scope string_scope.
 
@@ -57,11 +57,25 @@ Definition dec_entry (s : sexp) : option (bytes * jparse) :=
   | _ => None
   end.
 
+(** The JSON texts are parsed by the model itself ([JsonText.parse_text]) from the raw bytes of the
+    body / URL parameter / payload.  The harness supplies (a) the float64 bits of the number tokens
+    ([nums], strconv.ParseFloat) and (b) for the texts it built from its own value trees, the tree
+    ([json] table): a second opinion on the model's parser, not an input of the model. *)
 Definition jtable := list (bytes * jparse).
 Definition tbl_find (T : jtable) (t : bytes) : option jparse :=
   match find (fun e => bytes_eqb (fst e) t) T with Some (_, p) => Some p | None => None end.
-Definition tbl_parse (T : jtable) (t : bytes) : jparse :=
-  match tbl_find T t with Some p => p | None => PBad end.
+
+Definition ntable := list (bytes * option N).
+Definition dec_num (s : sexp) : option (bytes * option N) :=
+  match s with
+  | SL [SStr t; v] => if is_sym "nr" v then Some (t, None) else match as_N v with Some b => Some (t, Some b) | None => None end
+  | _ => None
+  end.
+Definition num_find (NT : ntable) (t : bytes) : option (option N) :=
+  match find (fun e => bytes_eqb (fst e) t) NT with Some (_, v) => Some v | None => None end.
+Definition numval_of (NT : ntable) (t : bytes) : option N :=
+  match num_find NT t with Some v => v | None => None end.
+Definition tbl_parse (fl : flavour) (NT : ntable) (t : bytes) : jparse := parse_text fl (numval_of NT) t.
 
 Inductive env := EHttp (e : envelope) | EWs (p : proto) (did_init : bool) (f : option frame).
 
@@ -208,13 +222,13 @@ Inductive mres :=
 | MClosed (c : Z)
 | MOther.
 
-Definition run_model (T : jtable) (e : env) : mres :=
+Definition run_model (T : ntable) (e : env) : mres :=
   match e with
-  | EHttp h => match new_request_from_http fixed (tbl_parse T) h with
+  | EHttp h => match new_request_from_http fixed (tbl_parse StdJson T) h with
                | Accept r => MAccept (op_of_request r) (r_ext r)
                | Reject c => MReject c
                end
-  | EWs p di f => match handle_message (tbl_parse T) p di f with
+  | EWs p di f => match handle_message (tbl_parse Jsoniter T) p di f with
                   | WsStart id q v n => MStart id {| o_query := q; o_vars := v; o_opname := n |}
                   | WsIgnored => MIgnored
                   | WsClosed c => MClosed c
@@ -261,12 +275,12 @@ Definition api_agrees (m : mres) (o : obs) : bool :=
   | _, _ => false
   end.
 
-Definition well_formed (T : jtable) (e : env) : bool :=
+Definition well_formed (T : ntable) (e : env) : bool :=
   match e with
-  | EHttp h => http_well_formed (tbl_parse T) h
+  | EHttp h => http_well_formed (tbl_parse StdJson T) h
   | EWs p di f =>
       di && match f with
-            | Some fr => bytes_eqb (f_type fr) (start_type p) && ws_well_formed (tbl_parse T) f
+            | Some fr => bytes_eqb (f_type fr) (start_type p) && ws_well_formed (tbl_parse Jsoniter T) f
             | None => false
             end
   end.
@@ -290,15 +304,31 @@ Fixpoint first_some {A B} (f : A -> option B) (l : list A) : option B :=
   end.
 
 (** the Spec oracle on one submission: a malformed envelope must be refused, nothing executed *)
-Definition oracle_sub (T : jtable) (s : sub) : option sexp :=
-  if negb (forallb (fun t => match tbl_find T t with Some _ => true | None => false end) (needed_texts (s_env s))) then
-    Some (v_bad "json-table-incomplete")
+Definition jparse_eqb (a b : jparse) : bool :=
+  match a, b with
+  | PTree x, PTree y => json_eqb x y
+  | PTrail x, PTrail y => json_eqb x y
+  | PBad, PBad => true
+  | _, _ => false
+  end.
+
+Definition flavour_of (e : env) : flavour := match e with EHttp _ => StdJson | EWs _ _ _ => Jsoniter end.
+
+Definition oracle_sub (J : jtable) (T : ntable) (s : sub) : option sexp :=
+  if negb (forallb (fun t => forallb (fun tok => match num_find T tok with Some _ => true | None => false end)
+                                     (num_tokens (List.length t) t)) (needed_texts (s_env s))) then
+    Some (v_bad "number-table-incomplete")
+  else if negb (forallb (fun t => match tbl_find J t with
+                                  | Some p => jparse_eqb (tbl_parse (flavour_of (s_env s)) T t) p
+                                  | None => true
+                                  end) (needed_texts (s_env s))) then
+    Some (v_bad "json-table-disagrees")
   else if negb (well_formed T (s_env s)) && negb (forallb oracle_malformed (s_obs s)) then
     Some (v_oracle_fail ("malformed-not-refused:" ++ s_transport s ++ ":" ++ s_label s) [])
   else None.
 
 (** model against implementation on one submission *)
-Definition check_sub (T : jtable) (o : op) (s : sub) : option sexp :=
+Definition check_sub (T : ntable) (o : op) (s : sub) : option sexp :=
   let m := run_model T (s_env s) in
   if negb (dec_agrees m (s_dec s)) then
     Some (v_mismatch ("decoder:" ++ name_of s) [])
@@ -316,7 +346,7 @@ Definition check_sub (T : jtable) (o : op) (s : sub) : option sexp :=
 (** ** same answer for the same operation *)
 Record entry := { en_name : string; en_sub : nat; en_op : op; en_obs : obs }.
 
-Fixpoint entries (T : jtable) (i : nat) (ss : list sub) : list entry :=
+Fixpoint entries (T : ntable) (i : nat) (ss : list sub) : list entry :=
   match ss with
   | [] => []
   | s :: r =>
@@ -354,7 +384,7 @@ Definition canonical_complete (o : op) (is_sub : bool) (ss : list sub) : bool :=
     Bool.eqb (has_canonical ss "post-graphql") (carries HttpPostGraphql o))).
 
 (** ** evidence classes *)
-Definition classes (T : jtable) (o : op) (is_sub : bool) (ss : list sub) : list string :=
+Definition classes (T : ntable) (o : op) (is_sub : bool) (ss : list sub) : list string :=
   let canon := filter (fun s => String.eqb (s_role s) "canonical") ss in
   let executed := existsb (fun s => existsb (fun ob => negb (is_empty (ob_resolvers ob))) (s_obs s)) canon in
   let refused := filter (fun s => negb (well_formed T (s_env s))) ss in
@@ -362,6 +392,18 @@ Definition classes (T : jtable) (o : op) (is_sub : bool) (ss : list sub) : list 
                                       match accepted_op (run_model T (s_env s)) with Some o' => op_eqb o o' | None => false end) ss in
   let alias_other := existsb (fun s => negb (String.eqb (s_role s) "canonical") &&
                                        match accepted_op (run_model T (s_env s)) with Some o' => negb (op_eqb o o') | None => false end) ss in
+  (* the same bytes as POST body and as socket payload, read as different operations *)
+  let text_diverges :=
+    existsb (fun s1 => existsb (fun s2 =>
+       String.eqb (s_label s1) (s_label s2) && negb (String.eqb (s_role s1) "canonical") &&
+       match s_env s1, s_env s2 with
+       | EHttp _, EWs _ _ _ =>
+           match accepted_op (run_model T (s_env s1)), accepted_op (run_model T (s_env s2)) with
+           | Some o1, Some o2 => negb (op_eqb o1 o2)
+           | _, _ => false
+           end
+       | _, _ => false
+       end) ss) ss in
   let http_refused := existsb (fun s => match s_env s with EHttp _ => true | _ => false end) refused in
   let ws_refused := existsb (fun s => match s_env s with EWs _ _ _ => true | _ => false end) refused in
   List.concat [
@@ -370,16 +412,17 @@ Definition classes (T : jtable) (o : op) (is_sub : bool) (ss : list sub) : list 
     (match o_vars o with Some (_ :: _) => ["with-variables"] | _ => [] end);
     (if is_empty (o_opname o) then [] else ["with-opname"]);
     (if alias_same then ["alias-same-op"] else []); (if alias_other then ["alias-other-op"] else []);
+    (if text_diverges then ["same-text-other-op"] else []);
     (if http_refused then ["refused-http"] else []); (if ws_refused then ["refused-ws"] else []);
     (if executed || http_refused || ws_refused then ["nontrivial"] else []) ].
 
 Definition check (c : sexp) : sexp :=
   match tagged "case" c with
   | Some l =>
-      match field "op" l, field "classes" l, field1 "json" l, field "subs" l with
-      | Some [q; v; n; sb], Some cls, Some (SL ts), Some ss =>
-          match as_bytes q, dec_optmap v, as_bytes n, as_bool sb, map_opt as_sym cls, map_opt dec_entry ts, map_opt dec_sub ss with
-          | Some q', Some v', Some n', Some is_sub, Some cls', Some T, Some subs =>
+      match field "op" l, field "classes" l, field1 "json" l, field "nums" l, field "subs" l with
+      | Some [q; v; n; sb], Some cls, Some (SL ts), Some ns, Some ss =>
+          match as_bytes q, dec_optmap v, as_bytes n, as_bool sb, map_opt as_sym cls, map_opt dec_entry ts, map_opt dec_num ns, map_opt dec_sub ss with
+          | Some q', Some v', Some n', Some is_sub, Some cls', Some J, Some T, Some subs =>
               (* the operation as a Go map holds it (what every decoder must hand on) *)
               match (match v' with
                      | Some m => match to_go (JObj m) with Some (JObj m') => Some (Some m') | _ => None end
@@ -390,7 +433,7 @@ Definition check (c : sexp) : sexp :=
                   let o := {| o_query := q'; o_vars := vars; o_opname := n' |} in
                   if negb (canonical_complete o is_sub subs) then v_bad "missing-canonical-transport"
                   else
-                    match first_some (oracle_sub T) subs with
+                    match first_some (oracle_sub J T) subs with
                     | Some v => v
                     | None =>
                         match check_same (entries T 0 subs) with
@@ -403,9 +446,9 @@ Definition check (c : sexp) : sexp :=
                         end
                     end
               end
-          | _, _, _, _, _, _, _ => v_bad "decode"
+          | _, _, _, _, _, _, _, _ => v_bad "decode"
           end
-      | _, _, _, _ => v_bad "fields"
+      | _, _, _, _, _ => v_bad "fields"
       end
   | None => v_bad "shape"
   end.
